@@ -215,6 +215,26 @@ def offset_table_sync(chk, prog, rule):
             later = [c for c in syncs if c.seq > seq and _guard_keys([(g_, p_) for g_, p_ in I.plain_guards(c.guards)
                                                                      if not (isinstance(g_, dict) and g_.get("k") not in ("SwitchCase", "Catch")
                                                                              and _full_content_test(g_, p_))]) <= gk and not [L for L in c.loops if L not in loops]]
+            if later:
+                # ... and no early exit lies between the change and the rebuild: on the function's CFG every path from the block of the
+                # change to the exit runs through a rebuild call
+                try:
+                    from .. import flow as Fl_
+                    g_ = Fl_.CFG(f)
+                    wnode = [y for y in A.walk(f["body"]) if y.get("line") == line and (y.get("k") in ("BinaryOperator", "CompoundAssignOperator", "CallExpr", "CXXMemberCallExpr", "CXXOperatorCallExpr"))]
+                    pos = None
+                    for y in wnode:
+                        pos = g_.where(y)
+                        if pos is not None:
+                            break
+                    if pos is not None:
+                        sync_names = {(c.sig or c.callee) for c in syncs} | {c.callee for c in syncs}
+                        is_sync = lambda n_: n_.get("k") in ("CXXMemberCallExpr", "CallExpr") and ((n_.get("callee_sig") or n_.get("callee")) in sync_names or (n_.get("callee") or "") in sync_names)
+                        mn_, mx_ = g_.count_on_paths(is_sync, start=pos[0])
+                        if mn_ == 0:
+                            later = []
+                except Exception:
+                    pass
             nw += 1
             short = f["qname"].replace("vfps::", "")
             chk.check(bool(later), rule, "%s:%d" % (f.where.split(":")[0], line),
